@@ -330,9 +330,73 @@ def closing_stmts(repo):
             _unconditional(_find_func(ptree, "BufferedPipe", "close")))
 
 
+_BLOCKERS = ("_send_user_message", "_send_message", ".wait", ".sleep", ".join")
+
+
+def _cv_bindings(tree):
+    """{cv expression: lock expression} for every ``X = threading.Condition(Y)`` in the file"""
+    out = {}
+    for n in ast.walk(tree):
+        if isinstance(n, ast.Assign) and isinstance(n.value, ast.Call) and _src(n.value.func).endswith("Condition") \
+                and n.value.args:
+            for t in n.targets:
+                out[_src(t)] = _src(n.value.args[0])
+    return out
+
+
+def blocking_under_lock(repo):
+    """Every call that can wait for something (the send gate, a condition variable, sleep, join) made while a lock is
+    held, lexically or through same-class helpers (two levels): the shutdown paths take the channel lock, the transport
+    lock and the pipe locks, so a caller parked with one of them held stalls the teardown.  ok = the wait releases that
+    very lock (Condition.wait on a condition built over it) or the lock is not one the teardown takes."""
+    out = []
+    for fn in ("channel.py", "transport.py", "buffered_pipe.py"):
+        path = os.path.join(repo, "paramiko", fn)
+        tree = ast.parse(open(path).read())
+        cvs = _cv_bindings(tree)
+        for cls in [n for n in ast.walk(tree) if isinstance(n, ast.ClassDef)]:
+            methods = {f.name: f for f in cls.body if isinstance(f, ast.FunctionDef)}
+
+            def calls_in(stmts, depth, seen):
+                res = []
+                for c in ast.walk(ast.Module(body=list(stmts), type_ignores=[])):
+                    if not isinstance(c, ast.Call):
+                        continue
+                    name = _src(c.func)
+                    if any(name.endswith(b) for b in _BLOCKERS):
+                        res.append(name)
+                    elif depth > 0 and isinstance(c.func, ast.Attribute) and _src(c.func.value) == "self" and \
+                            c.func.attr in methods and c.func.attr not in seen:
+                        res += ["%s>%s" % (c.func.attr, x)
+                                for x in calls_in(methods[c.func.attr].body, depth - 1, seen | {c.func.attr})]
+                return res
+
+            for f in methods.values():
+                for n in ast.walk(f):
+                    regions = []
+                    if isinstance(n, ast.Try):
+                        for st in n.finalbody:
+                            if _is_call(st, "release"):
+                                regions.append((_src(st.value.func.value), n.body))
+                    if isinstance(n, ast.With):
+                        for it in n.items:
+                            if "lock" in _src(it.context_expr):
+                                regions.append((_src(it.context_expr), n.body))
+                    for lock, body in regions:
+                        for name in calls_in(body, 2, {f.name}):
+                            leaf = name.split(">")[-1]
+                            cv = leaf[:-5] if leaf.endswith(".wait") else None
+                            releases = cv is not None and cvs.get(cv) == lock
+                            teardown_lock = lock in ("self.lock", "self._lock")
+                            out.append({"file": fn, "func": f.name, "lock": lock, "call": name,
+                                        "ok": releases or not teardown_lock})
+    return out
+
+
 def lean_table(repo):
     ss = sites(repo)
     td = teardown(repo)
+    bl = blocking_under_lock(repo)
     ws = wait_shapes(repo)
     sc, pc = closing_stmts(repo)
     lines = ["/- GENERATED by pv/lib_lockdisc.py from paramiko/*.py — do not edit. -/",
@@ -355,6 +419,12 @@ def lean_table(repo):
               "def setClosedStmts : List String := [" + ", ".join('"%s"' % x.replace('"', "'") for x in sc) + "]", "",
               "/-- statements `BufferedPipe.close` executes unconditionally -/",
               "def pipeCloseStmts : List String := [" + ", ".join('"%s"' % x.replace('"', "'") for x in pc) + "]", "",
+              "/-- every call that can wait, made while a lock is held (lexically or through same-class helpers) -/",
+              "def blockingUnderLock : List LockSite := [",
+              ",\n".join('  { file := "%s", func := "%s", lock := "%s via %s", safe := %s }' %
+                         (b["file"], b["func"], b["lock"], b["call"].replace('"', "'"), "true" if b["ok"] else "false")
+                         for b in bl),
+              "]", "",
               "structure WaitShape where", "  row : String", "  kind : String", "  obj : String", "  precheck : Bool",
               "  loopChecksActive : Bool", "  loopChecksFlag : Bool", "  deriving Repr, DecidableEq", "",
               "/-- every `X.wait(..)` / `time.sleep(..)` in the functions behind the blocking APIs, classified -/",
